@@ -31,7 +31,7 @@ def plan(tier):
 
 
 def required_counters(tier):
-    return ["n_beyond_largest_group", "negative_n", "duplicate_index", "multi_column", "null_keys", "group>65536"]
+    return ["n_beyond_largest_group", "negative_n", "duplicate_index", "multi_column", "multi_column_ids_beyond_2**53", "null_keys", "group>65536"]
 
 
 def features(case):
@@ -53,6 +53,8 @@ def features(case):
         f.append("duplicate_index")
     if case.get("ncols", 1) > 1:
         f.append("multi_column")
+        if case.get("voffset"):
+            f.append("multi_column_ids_beyond_2**53")
     if any(k is None for k in lk):
         f.append("null_keys")
     return f
@@ -70,12 +72,15 @@ def nontrivial(case):
 def _values(case, n):
     """unique row ids as values: col0 = base + 3*i (dtype varies), col1 = -(i) float."""
     dtype = case.get("vdtype", "int64")
-    base = np.arange(n, dtype="int64") * 3 + 7
+    base = np.arange(n, dtype="int64") * 3 + 7 + int(case.get("voffset", 0))
     if dtype.startswith("datetime64") or dtype.startswith("timedelta64"):
         v0 = (base + 1_700_000_000_000_000_000 // gen.UNIT_NS[gen.dtype_unit(dtype)]).view(dtype) if dtype.startswith("datetime") else base.view(dtype)
     else:
         v0 = base.astype(dtype)
-    return v0, -(np.arange(n, dtype="float64")) - 0.5
+    v1 = -(np.arange(n, dtype="float64")) - 0.5
+    if case.get("v1dtype", "float64") == "int64":
+        v1 = -(np.arange(n, dtype="int64")) - 1
+    return v0, v1.astype(case.get("v1dtype", "float64"))
 
 
 def check(case, ctx):
@@ -140,7 +145,9 @@ def check(case, ctx):
             j = next(j for j, (a, b) in enumerate(zip(ridx, exp)) if cmp.py(a) != b)
             fails.append({"monitor": "c15.index", "sig": sig, "detail": f"{op}(n={k}): row from position {got[j]} carries index {ridx[j]!r}, original label {exp[j]!r}"})
     if col1 is not None:
-        if not np.array_equal(col1, v1[pos]):
+        if col1.dtype != v1.dtype:
+            fails.append({"monitor": "c15.values", "sig": sig, "detail": f"{op}: second column dtype changed from {v1.dtype} to {col1.dtype}"})
+        elif not np.array_equal(col1, v1[pos]):
             fails.append({"monitor": "c15.values", "sig": sig, "detail": f"{op}(n={k}): second column does not belong to the same rows"})
     # original relative order within a group
     last = {}
@@ -164,9 +171,13 @@ def gen_case(rng):
     if op == "nth" and rng.random() < 0.5:
         k = -int(rng.integers(1, mx + 3))
     case = {"n": n, "keys": keys, "op": op, "params": {"n": k}, "sort": bool(rng.random() < 0.7), "mask": None,
-            "vdtype": gen.pick(rng, ["int64", "float64", "int32", "datetime64[ns]", "timedelta64[us]", "uint16", "float32"]),
+            "vdtype": gen.pick(rng, ["int64", "int64", "float64", "int32", "datetime64[ns]", "timedelta64[us]", "uint16", "float32", "uint64"]),
             "ncols": gen.pick(rng, [1, 1, 2]), "frame": bool(rng.random() < 0.5), "vc": gen.pick(rng, ["np", "pd"]),
             "index": gen.gen_index(rng, n), "val": {"dtype": "int64", "vals": []}}
+    if case["vdtype"] in ("int64", "uint64") and rng.random() < 0.5:
+        # 64-bit ids beyond 2**53: any detour of the values through float64 (or a common dtype of several columns) alters them
+        case["voffset"] = int(gen.pick(rng, [2**53 + 1, 2**62 + 1, -2**62 - 1 if case["vdtype"] == "int64" else 2**61 + 3]))
+    case["v1dtype"] = gen.pick(rng, ["float64", "float64", "float32", "int64"])
     common.add_route(rng, case, 0.2)
     return case
 
